@@ -520,7 +520,8 @@ def run_buffers(o, layout):
         ('json', lambda: ak.from_buffers(form.tojson(), length, raw, partition_start=pstart, key_format=kf)),
         ('dict', lambda: ak.from_buffers(json.loads(form.tojson()), length,
                                          dict((k, bytearray(v)) for k, v in raw.items()), partition_start=pstart, key_format=kf)),
-        ('lazy', lambda: ak.from_buffers(form, length, raw, partition_start=pstart, key_format=kf, lazy=True)),
+        ('lazy', lambda: ak.from_buffers(form, length, dict((k, bytearray(v)) for k, v in raw.items()), partition_start=pstart,
+                                         key_format=kf, lazy=True)),
     ]
     for name, f in variants:
         del TRACE[:]
@@ -528,7 +529,7 @@ def run_buffers(o, layout):
         def one(name=name, f=f):
             res = f()
             d = describe(name, res)
-            if name == 'bytes':
+            if name == 'arr':
                 d = d[:-1] + ' (trace %s))' % ' '.join('(%s %s %s)' % (p, hx(k if k is not None else ''), 'none' if n is None else int(n))
                                                          for p, k, n in TRACE)
             return d
